@@ -11,6 +11,7 @@ import (
 	"github.com/MichaelMure/git-bug/repository"
 	"github.com/MichaelMure/git-bug/util/multierr"
 	"github.com/MichaelMure/git-bug/util/process"
+	"github.com/MichaelMure/git-bug/util/verifhook"
 )
 
 // 1: original format
@@ -172,6 +173,7 @@ func (c *RepoCache) lock(events chan BuildEvent) error {
 	if err != nil {
 		return err
 	}
+	verifhook.Point("cache.lock.window")
 
 	f, err := c.repo.LocalStorage().Create(lockfile)
 	if err != nil {
@@ -238,6 +240,7 @@ type BuildEvent struct {
 
 func (c *RepoCache) buildCache(events chan BuildEvent) {
 	events <- BuildEvent{Event: BuildEventCacheIsBuilt}
+	verifhook.Point("cache.build")
 
 	var wg sync.WaitGroup
 	for _, subcache := range c.subcaches {
